@@ -1,4 +1,5 @@
 mod conv;
+mod envprobe;
 mod policy;
 mod prog;
 mod props;
@@ -31,7 +32,11 @@ static LOGGER: NullLogger = NullLogger;
 
 fn main() {
     let _ = log::set_logger(&LOGGER);
-    log::set_max_level(log::LevelFilter::Off);
+    log::set_max_level(match std::env::var("FPVERIF_LOG").as_deref() {
+        Ok("trace") => log::LevelFilter::Trace,
+        Ok("warn") => log::LevelFilter::Warn,
+        _ => log::LevelFilter::Off,
+    });
     let args: Vec<String> = std::env::args().skip(1).collect();
     if args.is_empty() {
         usage();
@@ -46,6 +51,7 @@ fn main() {
         _ => Tier::Quick,
     };
     let mut replay = None;
+    let mut inner = false;
     let mut i = 1;
     while i < args.len() {
         match args[i].as_str() {
@@ -56,6 +62,10 @@ fn main() {
                     _ => usage(),
                 };
                 i += 2;
+            }
+            "--inner" => {
+                inner = true;
+                i += 1;
             }
             "--replay" => {
                 replay = args.get(i + 1).cloned();
@@ -70,7 +80,14 @@ fn main() {
     let ctx = Ctx::new(&id, tier);
     let code = match replay {
         Some(path) => props::replay(&ctx, &path),
-        None => props::run(&ctx),
+        None => {
+            if !inner {
+                // what does the library ask its environment?  (violations found under a variation
+                // are merged into this run's report)
+                envprobe::run(&ctx);
+            }
+            props::run(&ctx)
+        }
     };
     std::process::exit(code);
 }
